@@ -26,19 +26,19 @@ open IcyVerif.IcyDraw IcyVerif.Gen.Icy
 /-- one visible cell: the reader, positioned at the record the writer emitted for a well-formed visible cell, does
     `set_char` with exactly that cell (short and long form) and continues behind the record -/
 theorem cell_rt (w : Nat) (c : Cell) (rest : Bytes) (hw : c.wf = true) (hv : c.visible = true) :
-    readRow true (w + 1) (encodeCell c ++ rest) = consRow (some c) (readRow true w rest) :=
+    readRow (w + 1) (encodeCell c ++ rest) = consRow (some c) (readRow w rest) :=
   readRow_visible w c rest hw hv
 
 /-- one invisible cell — whatever other attribute bits it carries — is skipped by the reader -/
 theorem invisible_cell_rt (w : Nat) (c : Cell) (rest : Bytes) (hv : c.visible = false) :
-    readRow true (w + 1) (encodeCell c ++ rest) = consRow none (readRow true w rest) := by
+    readRow (w + 1) (encodeCell c ++ rest) = consRow none (readRow w rest) := by
   rw [encodeCell_invisible c hv]; exact readRow_invisible w rest
 
 /-- one row of `w` cells, for every mixture of short / long / invisible cells and every visible length relative to
     the width (terminator present iff the row is not full): the reader returns the writer's cells up to the last
     visible one and stops exactly behind the row -/
 theorem row_rt (w : Nat) (cells : List Cell) (hlen : cells.length = w) (hwf : ∀ c ∈ cells, c.wf = true) (rest : Bytes) :
-    readRow true w (encodeRow w cells ++ rest) = .ok ((stripInv cells).map optCell, rest) :=
+    readRow w (encodeRow w cells ++ rest) = .ok ((stripInv cells).map optCell, rest) :=
   readRow_encodeRow w cells hlen hwf rest
 
 /-- split arithmetic: a well-formed layer is never split into continuation chunks -/
@@ -214,7 +214,7 @@ def encodeCellPinned (c : Cell) : Bytes := if c.visible then encodeCell c else l
 /-- the defect of the pinned tree, as a witness: `invisible() | BOLD` followed by a visible cell in a row of width
     3 — the reader takes the invisible cell for a long cell, swallows the next records and fails -/
 theorem pinned_writer_breaks :
-    readRow true 3 (encodeCellPinned ⟨32, 7, 0, 0, attrInvisible ||| 1⟩ ++ encodeCell ⟨65, 7, 0, 0, 0⟩ ++
+    readRow 3 (encodeCellPinned ⟨32, 7, 0, 0, attrInvisible ||| 1⟩ ++ encodeCell ⟨65, 7, 0, 0, 0⟩ ++
       leBytes 2 attrInvisibleShort) = .fail .errOob := by
   decide
 
